@@ -67,10 +67,19 @@ func nConcRace(tier string) int {
 	return 2
 }
 
-func wideBatch(tier string) int   { return nPkg(tier) + nInproc(tier) }
-func aliasBatch0(tier string) int { return wideBatch(tier) + 1 }
-func concBatch0(tier string) int  { return aliasBatch0(tier) + nAlias(tier) }
-func nBatches(tier string) int    { return concBatch0(tier) + nConc(tier) }
+func wideBatch(tier string) int    { return nPkg(tier) + nInproc(tier) }
+func aliasBatch0(tier string) int  { return wideBatch(tier) + 1 }
+func concBatch0(tier string) int   { return aliasBatch0(tier) + nAlias(tier) }
+func customBatch0(tier string) int { return concBatch0(tier) + nConc(tier) }
+func nBatches(tier string) int     { return customBatch0(tier) + nCustom(tier) }
+
+// payload types with their own encodings (custom.go), appended after the concurrent batches
+func nCustom(tier string) int {
+	if tier == "thorough" {
+		return 6
+	}
+	return 2
+}
 
 // ---- package part -----------------------------------------------------------------------
 
@@ -426,6 +435,12 @@ func optionShape[T any](name string, faithful bool, gen func(r *rand.Rand, nn bo
 				} else {
 					want = []byte("null")
 				}
+				if x.IsDefined() && w.Batch >= customBatch0(w.Tier) {
+					w.Add("custom.encoding_compared_with_bare_value", 1)
+					if len(want) > 0 && want[0] == '"' {
+						w.Add("custom.some_payload_encoded_as_json_string", 1)
+					}
+				}
 				if !bytes.Equal(b, want) {
 					w.Violation(i, "fp.Option.MarshalJSON/encoding/"+name, fmt.Sprintf("json.Marshal(option) = %s, expected the encoding of the payload (null for None): %s", clipB(b), clipB(want)), map[string]any{"shape": name, "got": string(b), "want": string(want)})
 				}
@@ -704,6 +719,15 @@ func shapes() []shape {
 func runInprocCase(w *vrt.W, i int) {
 	r := w.Rand(i)
 	ss := shapes()
+	if w.Batch >= customBatch0(w.Tier) {
+		ss = customShapes()
+		if i == w.From {
+			if msg := selfCheckCustom(); msg != "" {
+				w.Note("custom payload self-check failed (harness): " + msg)
+				return
+			}
+		}
+	}
 	s := ss[(i+w.Batch*7)%len(ss)]
 	values, hostile := 150, 300
 	if w.Tier == "thorough" {
@@ -746,6 +770,8 @@ func main() {
 			switch {
 			case b < nPkg(tier) || b == wideBatch(tier):
 				return 1
+			case b >= customBatch0(tier):
+				return len(customShapes()) // every such batch visits every custom-encoding shape once
 			case b >= concBatch0(tier):
 				return len(concPlans)
 			case b >= aliasBatch0(tier):
@@ -760,6 +786,11 @@ func main() {
 		WorkerProcs: 4,
 		Run: func(w *vrt.W) {
 			switch {
+			case w.Batch >= customBatch0(w.Tier):
+				for i := w.From; i < w.To; i++ {
+					runInprocCase(w, i)
+				}
+				return
 			case w.Batch >= concBatch0(w.Tier):
 				for i := w.From; i < w.To; i++ {
 					runConcCase(w, i)
@@ -787,7 +818,7 @@ func main() {
 			}
 		},
 		CaseCPUBudget: 600,
-		Rule:          "two kinds of cases. (a) in-process: one case = one payload type shape T (ints of every width, floats, bool, escape-heavy valid-UTF-8 strings, slices, []byte, arrays, maps, pointers, time.Time in UTC, structs, tuples, nested Options, Unit, any) with 150 (thorough 400) generated fp.Option[T] values: Marshal must give the payload's encoding / null, Unmarshal(Marshal(x)) must equal x (stand-alone, into a pre-set target, and inside struct/slice/map/pointer containers) whenever the payload's encoding is faithful and not null; then 300 (800) hostile inputs (classics, PRNG bytes, truncated / bit-flipped / type-swapped / number-inflated / structurally damaged mutations of the valid documents, 10001-deep nesting) go through json.Unmarshal and direct UnmarshalJSON: no panic, and on error the target equals the sentinel it held. (b) one case = one generated package of @fp.Value @fp.Json structs (grammar of C07 restricted to faithfully encodable field types, plus a few any / Option[*T] / Option[[]T] fields used for the never-panics part only): gombok from the working tree, then a law test in the same package checks per struct on 100 (160) values: Marshal(x) == Marshal(x.AsMutable()) == Marshal(&x) == x.MarshalJSON() byte for byte, the reflected field names / types / tags of the Mutable twin follow gombok's rule, Unmarshal(Marshal(x)) == x field by field (nil ≡ empty), and 260 (400) hostile inputs per struct never panic and leave the target unchanged on error. Every generated struct is additionally compared with an INDEPENDENT reference of its JSON object written from the spec (one member per non-underscore field, declaration order, key = copied json tag or json:\"<field>\", omitempty exactly for nilable / Option kinds, member value = the field's own encoding; nothing of AsMutable is consulted) and decoded from that reference document; 25 % extra values per struct carry a non-zero, non-empty value in every field; a second seed package holds @fp.Json structs with 21, 22, 23 and 30 fields. (c) direct-call aliasing: MarshalJSON / UnmarshalJSON of Option, Unit and the generated structs are called directly, every returned []byte is kept as returned next to a copy while later Marshal calls run (same value, other values, other payload types, a helper goroutine, encoding/json over containers) and re-compared at the end, then overwritten by the caller and every value marshalled again; the same input buffer is decoded twice, must come back unchanged, is overwritten afterwards and the decoded value must not change. (d) concurrent: 32..128 goroutines marshal / unmarshal Options whose payloads (1 B .. 1 MB, pure function of case seed, goroutine, iteration, text naming its owner) have an encoding known without encoding/json; every result must be the goroutine's own encoding and decode back; half of these batches run in the -race build (race reports inside csgura/fp are violations). distinct_nontrivial = distinct @fp.Json struct shapes whose laws ran + distinct (payload shape, case seed) pairs of the in-process and aliasing parts + distinct (plan, case seed) pairs of the concurrent part.",
+		Rule:          "two kinds of cases. (a) in-process: one case = one payload type shape T (ints of every width, floats, bool, escape-heavy valid-UTF-8 strings, slices, []byte, arrays, maps, pointers, time.Time in UTC, structs, tuples, nested Options, Unit, any) with 150 (thorough 400) generated fp.Option[T] values: Marshal must give the payload's encoding / null, Unmarshal(Marshal(x)) must equal x (stand-alone, into a pre-set target, and inside struct/slice/map/pointer containers) whenever the payload's encoding is faithful and not null; then 300 (800) hostile inputs (classics, PRNG bytes, truncated / bit-flipped / type-swapped / number-inflated / structurally damaged mutations of the valid documents, 10001-deep nesting) go through json.Unmarshal and direct UnmarshalJSON: no panic, and on error the target equals the sentinel it held. (b) one case = one generated package of @fp.Value @fp.Json structs (grammar of C07 restricted to faithfully encodable field types, plus a few any / Option[*T] / Option[[]T] fields used for the never-panics part only): gombok from the working tree, then a law test in the same package checks per struct on 100 (160) values: Marshal(x) == Marshal(x.AsMutable()) == Marshal(&x) == x.MarshalJSON() byte for byte, the reflected field names / types / tags of the Mutable twin follow gombok's rule, Unmarshal(Marshal(x)) == x field by field (nil ≡ empty), and 260 (400) hostile inputs per struct never panic and leave the target unchanged on error. Every generated struct is additionally compared with an INDEPENDENT reference of its JSON object written from the spec (one member per non-underscore field, declaration order, key = copied json tag or json:\"<field>\", omitempty exactly for nilable / Option kinds, member value = the field's own encoding; nothing of AsMutable is consulted) and decoded from that reference document; 25 % extra values per struct carry a non-zero, non-empty value in every field; a second seed package holds @fp.Json structs with 21, 22, 23 and 30 fields. (c) direct-call aliasing: MarshalJSON / UnmarshalJSON of Option, Unit and the generated structs are called directly, every returned []byte is kept as returned next to a copy while later Marshal calls run (same value, other values, other payload types, a helper goroutine, encoding/json over containers) and re-compared at the end, then overwritten by the caller and every value marshalled again; the same input buffer is decoded twice, must come back unchanged, is overwritten afterwards and the decoded value must not change. (d) concurrent: 32..128 goroutines marshal / unmarshal Options whose payloads (1 B .. 1 MB, pure function of case seed, goroutine, iteration, text naming its owner) have an encoding known without encoding/json; every result must be the goroutine's own encoding and decode back; half of these batches run in the -race build (race reports inside csgura/fp are violations). distinct_nontrivial = distinct @fp.Json struct shapes whose laws ran + distinct (payload shape, case seed) pairs of the in-process and aliasing parts + distinct (plan, case seed) pairs of the concurrent part. (e) payloads with their own encoding (2 / 6 batches at the end, custom.go): part (a) again for 37 payload shapes: named int / int8 / uint16 / uint64 / uintptr / bool / string / float64 types implementing encoding.TextMarshaler+TextUnmarshaler only, json.Marshaler+Unmarshaler only, both, fmt.Stringer only, MarshalJSON or the text methods on the pointer receiver only, pointers to such types, named struct / slice / map types with MarshalJSON or MarshalText, slices of them, time.Month, slog.Level, net.IP, netip.Addr, *big.Int, json.Number, maps keyed by text-encoded / both / Stringer-only / netip.Addr keys, Option of them, and Option[any] holding any of them; json.Marshal(Some(v)) must be byte-identical to json.Marshal(v) for all of them, and the round trips of (a) must hold wherever the bare value round-trips through encoding/json (all but pointer-receiver text methods on a value, string-kind map keys with MarshalText, and any).",
 		Assumptions: []string{
 			"payload values are valid UTF-8 strings, finite floats, UTC times without monotonic reading in years 1..9999; other values are not faithfully encodable by encoding/json itself",
 			"Some(v) with a null-encoding payload (nil pointer/slice/map, None, Unit, nil interface) and any-typed payloads are only used for the never-panics part",
@@ -803,6 +834,16 @@ func main() {
 			for _, s := range shapes() {
 				m["hit.shape."+s.name] = 1
 			}
+			// payload types with custom encodings: every shape visited, faithful ones really round-tripped
+			for _, s := range customShapes() {
+				m["hit.shape."+s.name] = 2
+				if s.name != "named-int(pointer-receiver-text)" && s.name != "any(custom-encodings)" && s.name != "map[named-string(text)]named-int(text)" {
+					m["roundtrip."+s.name] = 100
+				} else {
+					m["nopanic_only."+s.name] = 100
+				}
+			}
+			m["custom.encoding_compared_with_bare_value"] = 5000
 			// direct-call aliasing part, concurrent part, wide structs and the independent reference object
 			for _, s := range aliasShapes() {
 				m["hit.alias."+s.name] = 1
